@@ -26,6 +26,7 @@ type simConn struct {
 	stamp    *int64
 	start    time.Time
 	notify   chan struct{} // driver wake-up: the broker wrote or closed
+	skew     time.Duration
 	// counters for oracles
 	writesAfterClose int
 	bytesOut         int64
@@ -47,8 +48,11 @@ func (timeoutErr) Temporary() bool { return true }
 var errReset = errors.New("connection reset by peer")
 var errClosed = errors.New("use of closed network connection")
 
+var simConnSeq int64
+
 func newSimConn(stamp *int64, start time.Time, notify chan struct{}) *simConn {
-	return &simConn{wake: make(chan struct{}, 1), stamp: stamp, start: start, notify: notify}
+	n := atomic.AddInt64(&simConnSeq, 1)
+	return &simConn{wake: make(chan struct{}, 1), stamp: stamp, start: start, notify: notify, skew: time.Duration(50+n%200) * time.Microsecond}
 }
 
 func (c *simConn) tell() {
@@ -143,7 +147,19 @@ func (c *simConn) Close() error {
 	return nil
 }
 
+// skewed: deadlines of simulated connections fire a few microseconds late, a different amount
+// per connection, so that a deadline set at a broker tick plus a whole number of seconds does
+// not fall on the very instant of a later tick (or of another connection's deadline): which of
+// two timers due at one instant runs first is the Go runtime's choice, not the simulator's.
+func (c *simConn) skewed(t time.Time) time.Time {
+	if t.IsZero() {
+		return t
+	}
+	return t.Add(c.skew)
+}
+
 func (c *simConn) SetDeadline(t time.Time) error {
+	t = c.skewed(t)
 	c.mu.Lock()
 	c.rdl, c.wdl = t, t
 	c.mu.Unlock()
@@ -151,6 +167,7 @@ func (c *simConn) SetDeadline(t time.Time) error {
 	return nil
 }
 func (c *simConn) SetReadDeadline(t time.Time) error {
+	t = c.skewed(t)
 	c.mu.Lock()
 	c.rdl = t
 	c.mu.Unlock()
